@@ -96,6 +96,12 @@ CHECKS = {
         text='Theorems over every operation sequence and every prior generator state: a call with an integer seed consumes exactly the first draws of that seed\'s stream (so two such calls agree whatever was drawn before); after globalConfig.setSeed(n) the outputs of any sequence of calls passing no integer seed are a function of n and the sequence only; constructing a randomised object without an integer seed leaves the generator untouched. The implementation is tied to the machine by wrapping np.random.seed and every draw function from outside and checking, for random operation sequences over all ten randomised APIs, that its event trace is the contract\'s (seed called iff the argument is an int, with that value, before any draw; never with None except in setSeed(None)), and by replaying each sequence from different prior generator states and comparing outputs bit for bit.',
         note='Trusted: Lean kernel + standard axioms; the abstract generator (a stream is identified by its seed; entropy re-seeding yields a fresh stream); the wrappers around numpy.random; "constructing never disturbs" is decided for constructions without an integer seed (an integer seed must restart the stream by the first clause).',
         ref='§5 C15'),
+    'C13': dict(
+        engine='oracle-stream',
+        technique='Lean 4 proof about a code-shaped model of the level bookkeeping for every oracle stream (chain history) + trace validation of the implementation (chain evolution observed from outside, replayed through the model) + invariants evaluated on un-mocked runs',
+        text='Theorems for every chain history that respects the sampler contract of C14 (a kept move passed the domain test g < threshold): every level holds exactly N samples sorted by g; the seeds are at or below the threshold (the p0-quantile floored at zero); if the chains renew the whole level then every sample of level k+1 is at or below the level-k threshold; the stored failure fraction and the product pf lie in [0, 1]. The implementation is tied to the model by trace validation (limit state and sampler class wrapped from outside; the model reproduces every level from the observed chain states on an order/sign-preserving integer image of g), and nestedness, sortedness, X = T(U) with g evaluated on X, and the pf formula are evaluated on un-mocked runs over four limit states. The statistical-error-band sentence is a labelled statistical test in the thorough tier.',
+        note='Trusted: Lean kernel + standard axioms; hand-written model FF.Subset tied by trace validation; the chain contract is C14\'s theorem plus the domain function of the source (observed, not modelled); pf clause decided for runs reaching the zero level; distributional clause tested only.',
+        ref='§5 C13'),
 }
 
 NOT_YET = {}
